@@ -1,12 +1,14 @@
 """Shared suite plans of the sequential-history properties (same history space as C02)."""
 import seqprop
 
-EXH = ("all call sequences of the given length over a 14-symbol abstract alphabet (get order 0/7/huge/tree via slot 0, targeted get "
-       "of a free / a held block, free via slot / without slot, free of a part, repeated free, drain, offline/online tree 0, "
-       "misaligned free) on small configurations")
+EXH = ("all call sequences of the given length over a 15-symbol abstract alphabet (get order 0/7/huge/tree via slot 0, targeted get "
+       "of a free / a held block with and without slot, free via slot / without slot, free of a part, repeated free, drain, offline/online tree 0, "
+       "misaligned free) on small configurations, each followed by an epilogue (free what is held, drain, targeted tree-order "
+       "allocation of every whole tree)")
 RND = ("seeded adaptive random histories (+queries): all orders, targeted gets, frees of held / split / merged / never allocated "
        "blocks, drains, tree changes, invalid arguments; 1-4 trees incl. partial last trees and tiny ranges, free-all / alloc-all, "
-       "simple/movable/zeroed/zero-slot/custom classings with 1-3 slots")
+       "simple/movable/zeroed/zero-slot/custom classings with 1-3 slots; every second history ends with an epilogue (free everything "
+       "held, drain, targeted tree-order allocation of every tree, base allocations, validate)")
 
 
 def plans(quick_hist=160, thorough_hist=5000, ops=150, depth_q=4, depth_t=5, extra_suites=()):
